@@ -108,4 +108,16 @@ CLAIMS = {
         "text": "Generated-input search: every generated Duration / (total,slice) / timeval is checked against an exact arithmetic oracle (saturating sum between two clock reads, partition law, zero-means-unlimited); a hang guard turns non-termination into a reported case. Shows absence of violations only on the generated inputs.",
         "note": "Inputs sampled, not exhausted; timeval fields non-negative; <=100000 pieces per split; clock monotone across one call.",
     },
+    "C20": {
+        "engine": "vcore C20",
+        "technique": PBT + ": generated waiter sets, write targets/timings and poll-interrupting signals in a fresh child process per case; oracle over the hook-observed event log (resume-by-token hit/miss, wake reason Callback vs Timeout), every deviation confirmed by 3 immediate re-executions",
+        "text": "1..2 event loops, 1..4 tasks blocked in hooked recv on own socketpairs, 1..3 writes to generated targets placed 1..6 ms after the target parked (inside its 10 ms wait slice), optionally after no-op signals interrupted the loop's poll. Every resume-by-token must name a coroutine that is waiting on the written descriptor and hit; the target's first resumption after the write must be by the readiness event; an unwritten waiter never sees a readiness resumption.",
+        "note": "A write is judged only if it demonstrably landed inside the target's current wait slice; timing deviations that do not repeat 3/3 are counted as transient, never reported. AF_UNIX stream socketpairs, read readiness only.",
+    },
+    "C21": {
+        "engine": "vcore C21",
+        "technique": PBT + ": stateful histories in a fresh child process per case, differential against the kernel's own interest list (/proc/self/fdinfo of every epoll descriptor) after every operation",
+        "text": "Histories of 1..23 ops over 3 socketpairs -- wait read/write, remove read/write/both, shutdown(RD|WR|RDWR), close, reopen (descriptor number reuse), peer write (a registered read interest fires), drain -- each issued by a plain thread or by one of two tasks; after every op the EPOLLIN/EPOLLOUT bits the kernel holds for every live descriptor must equal the model's outstanding set. One event loop is judged strictly; two event loops are explored under their own signatures (listed known finding: process-wide records vs per-loop registrations).",
+        "note": "An interest is outstanding from the wait that registered it until it is removed through the runtime (a delivered event does not remove it); the union over all epoll instances of the process is compared.",
+    },
 }
